@@ -551,6 +551,13 @@ func genXreq(r *rng.R, last bool) xreq {
 	if r.Chance(1, 12) {
 		add("Range", "bytes=0-9")
 	}
+	switch r.Intn(16) {
+	case 0:
+		add("Pragma", "no-cache") // net/http adds Cache-Control: no-cache when the request has none
+	case 1:
+		add("Pragma", "no-cache")
+		add("Cache-Control", "max-age=0")
+	}
 	// body
 	if q.Method != "GET" && q.Method != "HEAD" || r.Chance(1, 6) {
 		sizes := []int{0, 1, 100, 4095, 4096, 4097, 8192, 32767, 32768, 32769, 70000}
@@ -666,6 +673,7 @@ func xcorpus() []xconn {
 		one("U", xreq{Method: "PUT", Target: "http://{O}/big", Proto: "HTTP/1.1", Fields: []g01rig.Field{h}, Framing: "cl", BodyLen: 70000, BodySeed: 9}),
 		one("D", xreq{Method: "GET", Target: "/ws", Proto: "HTTP/1.1", Fields: []g01rig.Field{h, {"Connection", "Upgrade"}, {"Upgrade", "websocket"}, {"Sec-WebSocket-Key", "x"}}, Framing: "none"}),
 		one("D", xreq{Method: "GET", Target: "/x", Proto: "HTTP/1.1", Fields: []g01rig.Field{h, {"Connection", "x-a, keep-alive"}, {"X-A", "1"}, {"Keep-Alive", "timeout=5"}, {"Proxy-Authorization", "Basic Zm9vOmJhcg=="}, {"TE", "trailers"}, {"X-B", "2"}}, Framing: "none"}),
+		one("D", xreq{Method: "GET", Target: "/pragma", Proto: "HTTP/1.1", Fields: []g01rig.Field{h, {"Pragma", "no-cache"}}, Framing: "none"}),
 		one("D", xreq{Method: "GET", Target: "/tab", Proto: "HTTP/1.1", Fields: []g01rig.Field{h, {"Connection", "keep-alive,\tX-A"}, {"Connection", "x-b\t, X-Custom-Id"}, {"X-A", "1"}, {"X-B", "2"}, {"X-Custom-Id", "3"}, {"Accept", "kept"}}, Framing: "none"}),
 		one("D", xreq{Method: "GET", Target: "/x{y}?q={z}", Proto: "HTTP/1.1", Fields: []g01rig.Field{h}, Framing: "none"}),
 		one("D", xreq{Method: "GET", Target: "/loop", Proto: "HTTP/1.1", Fields: []g01rig.Field{h, {"Via", "1.1 alpha"}, {"Via", "1.1 {TAG}"}}, Framing: "none"}),
